@@ -281,6 +281,7 @@ impl Engine {
                                 let node = self.model.get_mut(names).unwrap();
                                 node.kind = Kind::Stream { data: bytes };
                                 self.stats.bump("create_stream_overwrite");
+                                self.settle_replaced_state(names)?;
                             } else {
                                 self.model.insert(&plan.parent, Node { name: plan.name.clone(), state: 0, kind: Kind::Stream { data: bytes } });
                             }
@@ -627,6 +628,31 @@ impl Engine {
             *created = TimeVal::Exact(ft);
             *modified = TimeVal::Exact(ft);
         }
+        Ok(())
+    }
+
+    /// "it will be replaced by the new stream": the documentation does not say whether the
+    /// user-defined state bits of the replaced stream survive. Either the old value or 0 is
+    /// accepted; what is observed is pinned.
+    pub fn settle_replaced_state(&mut self, names: &[String]) -> Result<(), Fail> {
+        let old = self.model.get(names).unwrap().state;
+        let old_name = self.model.get(names).unwrap().name.clone();
+        let new_name = names.last().cloned().unwrap_or_default();
+        if old == 0 && old_name == new_name {
+            return Ok(());
+        }
+        let p = std::path::PathBuf::from(path_string(names));
+        let obs = self.lib_entry(&p)?.map_err(|e| Fail::new("mismatch|entry|after_replace|Ok|Err", format!("entry({:?}) after create_stream failed: {}", p, e)))?;
+        if obs.state != old && obs.state != 0 {
+            return Err(Fail::new("mismatch|create_stream|replace_state|old_or_zero|other", format!("state bits of replaced stream {:?}: {:#x} (was {:#x})", p, obs.state, old)));
+        }
+        // "replaces the first": the stored spelling may stay or become the new one
+        if obs.name != old_name && obs.name != new_name {
+            return Err(Fail::new("mismatch|create_stream|replace_name|old_or_new|other", format!("name of replaced stream {:?}: {:?} (was {:?}, requested {:?})", p, obs.name, old_name, new_name)));
+        }
+        let node = self.model.get_mut(names).unwrap();
+        node.state = obs.state;
+        node.name = obs.name.clone();
         Ok(())
     }
 
